@@ -3,6 +3,42 @@ import re
 
 SRC = '<dtml-tree root>ROW:<dtml-var tpId>;</dtml-tree>'
 _t = {}
+DEFAULT_OPT = {'ac': False, 'leaves': False, 'hf': False, 'single': False, 'rev': False, 'sorted': False}
+
+
+def source(opt, variant=0):
+    """the tag for an option record; `variant` chooses among spellings the model does not distinguish (how the children
+    and the id are obtained, presentation options)"""
+    a = 'root'
+    a += ('', ' branches=kids2', ' branches_expr="kidsx()"', ' branches=tpValues')[variant % 4]
+    idattr = 'tpId'
+    if variant % 3 == 1:
+        a += ' id=myid'
+        idattr = 'myid'
+    if variant % 5 == 2:
+        a += ' nowrap=1 prefix=tp urlparam="k=v"'
+    if opt.get('ac'):
+        a += ' assume_children=1'
+    if opt.get('leaves'):
+        a += ' leaves=lf'
+    if opt.get('hf'):
+        a += ' header=hd footer=ft'
+    if opt.get('single'):
+        a += ' single=1'
+    if opt.get('sorted'):
+        a += ' sort=rank'
+    if opt.get('rev'):
+        a += ' reverse'
+    return '<dtml-tree %s>ROW:<dtml-var %s>;</dtml-tree>' % (a, idattr)
+
+
+def docs():
+    from DocumentTemplate.DT_HTML import HTML
+    d = _t.get('__docs__')
+    if d is None:
+        d = _t['__docs__'] = {'hd': HTML('HEAD:<dtml-var tpId>;'), 'ft': HTML('FOOT:<dtml-var tpId>;'),
+                              'lf': HTML('LEAF:<dtml-var tpId>;')}
+    return d
 
 
 class Node:
@@ -19,6 +55,11 @@ class Node:
     def tpValues(self):
         return self.kids
 
+    kids2 = kidsx = tpValues
+
+    def myid(self):
+        return self.nid
+
 
 class Response:
     cookie = None
@@ -33,13 +74,16 @@ def build(parent, ids=None):
     n = len(parent)
     ids = ids or ['n%d' % i for i in range(1, n + 1)]
     nodes = [Node(ids[i]) for i in range(n)]
+    for i, nd in enumerate(nodes):
+        nd.rank = i + 1
     for i in range(1, n):
         nodes[parent[i] - 1].kids.append(nodes[i])
     return nodes
 
 
 _link = re.compile(r'<a name="([^"]*)" href="([^"?]*)\?(tree-[ec])=([^#"]*)#')
-_row = re.compile(r'ROW:(.*?);', re.S)
+_row = re.compile(r'(ROW|HEAD|FOOT|LEAF):(.*?);', re.S)
+_KIND = {'ROW': 'row', 'HEAD': 'head', 'FOOT': 'foot', 'LEAF': 'leaf'}
 
 
 def request(nodes, cookie=None, click=None, special=None, src=SRC):
@@ -51,6 +95,7 @@ def request(nodes, cookie=None, click=None, special=None, src=SRC):
         t = _t[src] = HTML(src)
     resp = Response()
     kw = {'URL': 'http://h/doc', 'RESPONSE': resp, 'root': nodes[0]}
+    kw.update(docs())
     if cookie is not None:
         kw['tree-s'] = cookie
     if click is not None:
@@ -58,10 +103,12 @@ def request(nodes, cookie=None, click=None, special=None, src=SRC):
     if special:
         kw[special] = 1
     out = t(**kw)
-    rows = _row.findall(out)
+    found = _row.findall(out)
+    rows = [x for k, x in found if k == 'ROW']
+    items = [[_KIND[k], x] for k, x in found]
     links = {}
     dup = []
-    for name, href, par, val in _link.findall(out):
+    for name, href, par, val in _link.findall(out.replace('?k=v&', '?')):
         if name in links:
             dup.append(name)
         links[name] = (par, val)
@@ -75,4 +122,4 @@ def request(nodes, cookie=None, click=None, special=None, src=SRC):
                 if len(e) > 1:
                     walk(e[1])
         walk(dec)
-    return {'rows': rows, 'links': links, 'dup': dup, 'cookie': resp.cookie, 'state': state, 'out': out}
+    return {'rows': rows, 'items': items, 'links': links, 'dup': dup, 'cookie': resp.cookie, 'state': state, 'out': out}
